@@ -42,10 +42,11 @@ Fixpoint total_len (bl : list (list N)) : N :=
   match bl with [] => 0%N | b :: r => (N.of_nat (List.length b) + total_len r)%N end.
 
 (* the transfer got as far as sending the final (short) block *)
-Definition completed (bs : N) (bl : list (list N)) : bool :=
-  match rev bl with
-  | b :: _ => (N.of_nat (List.length b) <? bs)%N
+Fixpoint completed (bs : N) (bl : list (list N)) : bool :=
+  match bl with
   | [] => false
+  | [b] => (N.of_nat (List.length b) <? bs)%N
+  | _ :: r => completed bs r
   end.
 
 Definition lower_names (o : list (str * str)) : list (str * str) := map (fun p => (lower (fst p), snd p)) o.
